@@ -9,6 +9,7 @@ use std::cell::Cell;
 pub struct CountingAlloc;
 
 thread_local! {
+    static SEQ: Cell<u64> = const { Cell::new(0) };
     static LIVE: Cell<i64> = const { Cell::new(0) };
     static PEAK: Cell<i64> = const { Cell::new(0) };
     static ALLOCS: Cell<u64> = const { Cell::new(0) };
@@ -30,11 +31,38 @@ fn add(n: i64) {
     });
 }
 
+/// Dirty-memory fault: memory handed out by `alloc` (not `alloc_zeroed`) and the grown tail of a
+/// `realloc` is filled with finite f64 garbage that differs from one allocation to the next (about
+/// 100.0 plus a per-thread sequence number in the low mantissa bits). Correct code never reads it;
+/// code that reads a slot before writing it (set_len, MaybeUninit, a forgotten fill) computes with
+/// garbage that differs between two instances - which every relational oracle then sees.
+#[inline]
+unsafe fn poison(p: *mut u8, from: usize, to: usize) {
+    if to <= from {
+        return;
+    }
+    let seq = SEQ.try_with(|s| {
+        let v = s.get().wrapping_add(1);
+        s.set(v);
+        v
+    })
+    .unwrap_or(1);
+    let word: u64 = 0x4059_0000_0000_0000 | ((seq & 0xFFFF_FFFF) << 12);
+    let bytes = word.to_le_bytes();
+    // byte-wise so that any alignment and any size works; the pattern is aligned to the block start
+    let mut i = from;
+    while i < to {
+        *p.add(i) = bytes[i & 7];
+        i += 1;
+    }
+}
+
 unsafe impl GlobalAlloc for CountingAlloc {
     unsafe fn alloc(&self, l: Layout) -> *mut u8 {
         let p = System.alloc(l);
         if !p.is_null() {
             add(l.size() as i64);
+            poison(p, 0, l.size());
         }
         p
     }
@@ -54,6 +82,7 @@ unsafe impl GlobalAlloc for CountingAlloc {
         if !q.is_null() {
             add(-(l.size() as i64));
             add(new as i64);
+            poison(q, l.size(), new);
         }
         q
     }
